@@ -14,6 +14,7 @@
 -/
 import TypedpyModel.Sem.Trusted
 import TypedpyModel.Spec.WfDecl
+import TypedpyModel.Spec.SerFrag
 namespace Typedpy
 
 /-- Array items stored as they are by both paths -/
@@ -32,8 +33,10 @@ def isRawScalar : FieldDecl → Bool
   | .integer _ | .number _ | .float _ | .string _ _ _ | .boolean | .enumLit _ => true
   | _ => false
 
+/-- an ImmutableSet field: the trusted instance holds a plain set, which the field's `_validate`
+    refuses (finding `unnormalised:optional-immutable-set` when it is the option of an Optional) -/
 def isSetDecl : FieldDecl → Bool
-  | .setOf _ _ _ | .setAny _ _ => true
+  | .setOf imm _ _ | .setAny imm _ => imm
   | _ => false
 
 mutual
@@ -68,7 +71,7 @@ def tsafeD : FieldDecl → Bool
 termination_by structural f => f
 
 /-- the options of an optional `AnyOf`: `[X, NoneField]` or `[NoneField, X]` with `X` safe (and
-    not a Set: an ImmutableSet option refuses the plain set the trusted instance holds) -/
+    not an ImmutableSet: that option refuses the plain set the trusted instance holds) -/
 def tsafeOpt : List FieldDecl → Bool
   | [] => false
   | x :: rest =>
@@ -174,7 +177,7 @@ def optDefect (fs : List FieldDecl) : List String :=
     (match optPick fs with
       | .setOf imm _ _ =>
         -- the trusted instance holds a plain set: an ImmutableSet option no longer validates it
-        if imm then ["unnormalised:optional-immutable-set"] else ["optional-set:unproved"]
+        if imm then ["unnormalised:optional-immutable-set"] else []
       | _ => [])
   else if fs.all (fun g => isRawScalar g || isNoneF g) then []
   else if fs.all isValidCls then ["unnormalised:anyof-enum"]      -- an Enum class option: names stay strings
@@ -192,7 +195,7 @@ def defectsD : FieldDecl → List String
   | .setOf _ item _ =>
     if isSetScalarOk item then []
     else if isEnumDecl item then defectsD item
-    else if isClassRef item then "none-attribute-hash:set-of-structures" :: defectsD item
+    else if isClassRef item then "set-of-structures:unproved" :: defectsD item
     else if isNoneF item then ["set-of-none:unproved"]
     else ["ineligible-shape"]
   | .setAny _ _ => ["ineligible-shape"]
@@ -302,8 +305,8 @@ def docIssues (opts : DeserOpts) (cls : FieldDecl) (d : PyVal) : List String :=
 
 mutual
 /-- the constructor stores the argument `v` of field `f` as it is: no Float ← int, Boolean ←
-    'True'/'False', Enum ← member name, StructureReference ← dict, and no collection the
-    constructor rebuilds (Set, Map, positional items) -/
+    'True'/'False', Enum ← member name, StructureReference ← dict; a collection the constructor
+    rebuilds (Set, Map, positional items) is already in its stored form -/
 def rawOkV : FieldDecl → PyVal → Bool
   | .float _, v => !isIntV v
   | .boolean, v => !isStrV v
@@ -322,16 +325,28 @@ def rawOkV : FieldDecl → PyVal → Bool
   | .allOf _, _ => true
   | .notF _, _ => true
   | .anything, _ => true
-  | .seqPos _ _ _ _, _ => false
-  | .setAny _ _, _ => false
-  | .setOf _ _ _, _ => false
-  | .tuplePos _ _, _ => false
-  | .mapAny _, _ => false
-  | .mapOf _ _ _, _ => false
+  -- collections the constructor rebuilds: rebuilt identically from a value that is already in the
+  -- stored form (a set / frozenset of the right mutability without repeated elements, a tuple / list
+  -- of raw-ok elements, a dict with pairwise different string keys)
+  | .seqPos k items _ _, v => (match seqElems k v with | some xs => rawOkZip items xs | none => true)
+  | .setAny imm _, v => (match v with | .set fr xs => (fr || !imm) && PyVal.pyNodup xs | _ => true)
+  | .setOf imm item _, v =>
+    (match v with | .set fr xs => (fr || !imm) && PyVal.pyNodup xs && xs.all (rawOkV item) | _ => true)
+  | .tuplePos items _, v => (match v with | .tuple xs => rawOkZip items xs | _ => true)
+  | .mapAny _, v => (match v with | .dict kvs => strKeysDistinct kvs | _ => true)
+  | .mapOf kf vf _, v =>
+    (match v with
+      | .dict kvs => strKeysDistinct kvs && kvs.all (fun kv => rawOkV kf kv.1 && rawOkV vf kv.2)
+      | _ => true)
 termination_by structural f _ => f
 def rawOkAll : List FieldDecl → PyVal → Bool
   | [], _ => true
   | f :: fs, v => rawOkV f v && rawOkAll fs v
+termination_by structural fs _ => fs
+def rawOkZip : List FieldDecl → List PyVal → Bool
+  | [], _ => true
+  | _ :: _, [] => true
+  | f :: fs, x :: xs => rawOkV f x && rawOkZip fs xs
 termination_by structural fs _ => fs
 end
 
@@ -372,18 +387,20 @@ def rawIssuesV : FieldDecl → PyVal → List String
   | .allOf _, _ => []
   | .notF _, _ => []
   | .anything, _ => []
-  | .seqPos _ items _ _, v =>
-    "rebuilt-collection:unproved" :: (match seqLike v with | some xs => rawIssuesZip items xs | none => [])
-  | .setAny _ _, _ => ["rebuilt-collection:unproved"]
-  | .setOf _ item _, v =>
-    "rebuilt-collection:unproved"
-      :: (match seqLike v with | some xs => (xs.map (rawIssuesV item)).flatten | none => [])
-  | .tuplePos items _, v =>
-    "rebuilt-collection:unproved" :: (match seqLike v with | some xs => rawIssuesZip items xs | none => [])
-  | .mapAny _, _ => ["rebuilt-collection:unproved"]
-  | .mapOf kf vf _, v =>
-    "rebuilt-collection:unproved"
-      :: (match v with
+  | .seqPos k items x y, v =>
+    (if rawOkV (.seqPos k items x y) v then [] else ["rebuilt-collection:unproved"])
+      ++ (match seqLike v with | some xs => rawIssuesZip items xs | none => [])
+  | .setAny imm x, v => if rawOkV (.setAny imm x) v then [] else ["rebuilt-collection:unproved"]
+  | .setOf imm item x, v =>
+    (if rawOkV (.setOf imm item x) v then [] else ["rebuilt-collection:unproved"])
+      ++ (match seqLike v with | some xs => (xs.map (rawIssuesV item)).flatten | none => [])
+  | .tuplePos items x, v =>
+    (if rawOkV (.tuplePos items x) v then [] else ["rebuilt-collection:unproved"])
+      ++ (match seqLike v with | some xs => rawIssuesZip items xs | none => [])
+  | .mapAny x, v => if rawOkV (.mapAny x) v then [] else ["rebuilt-collection:unproved"]
+  | .mapOf kf vf x, v =>
+    (if rawOkV (.mapOf kf vf x) v then [] else ["rebuilt-collection:unproved"])
+      ++ (match v with
           | .dict kvs => (kvs.map fun kv => rawIssuesV kf kv.1 ++ rawIssuesV vf kv.2).flatten
           | _ => [])
 termination_by structural f _ => f
